@@ -112,7 +112,12 @@ def _support(job):
             # a bound that is exactly 0 is a bound (the data are moved to one side of it)
             ('TruncatedGaussian(minimum=0)', U.TruncatedGaussian(minimum=0), 0.0, None),
             ('TruncatedGaussian(maximum=0.0)', U.TruncatedGaussian(maximum=0.0), None, 0.0),
-            ('TruncatedGaussian(0, hi)', U.TruncatedGaussian(0.0, float(X.max() - X.min()) + 2.0), 0.0, float(X.max() - X.min()) + 2.0)):
+            ('TruncatedGaussian(0, hi)', U.TruncatedGaussian(0.0, float(X.max() - X.min()) + 2.0), 0.0, float(X.max() - X.min()) + 2.0),
+            # the bounded model as the only candidate of the selecting wrapper (which re-creates it from the prototype): bounds given
+            # positionally, by keyword, and one of each
+            ('Univariate([TruncatedGaussian(lo, hi)])', U.Univariate(candidates=[U.TruncatedGaussian(float(X.min()) - 2.5, float(X.max()) + 0.5)]), float(X.min()) - 2.5, float(X.max()) + 0.5),
+            ('Univariate([TruncatedGaussian(lo, maximum=hi)])', U.Univariate([U.TruncatedGaussian(float(X.min()) - 1.5, maximum=float(X.max()) + 2.5)]), float(X.min()) - 1.5, float(X.max()) + 2.5),
+            ('Univariate([TruncatedGaussian(minimum=lo, maximum=hi)])', U.Univariate(candidates=[U.TruncatedGaussian(minimum=float(X.min()) - 0.5, maximum=float(X.max()) + 3.5)]), float(X.min()) - 0.5, float(X.max()) + 3.5)):
         X = X0.copy()
         if '0' in name.split('(')[-1]:
             X = (X0 - X0.min() + 0.3) if 'minimum=0' in name or '(0,' in name else (X0 - X0.max() - 0.3)
